@@ -118,3 +118,61 @@ pub fn run(args: &Args) -> Report {
     }
     rep
 }
+
+
+/// `verdicts`: semantic-analysis verdict for every program of an input file (programs separated by
+/// a line consisting of the single character U+001E). Writes "index\tok|rejected|panic\tnerrors\tfirst message".
+pub fn verdicts(args: &Args) -> Report {
+    let input = std::fs::read_to_string(args.get("input", "")).expect("input");
+    let out_path = args.get("verdict-out", "");
+    let programs: Vec<&str> = input.split("\n\u{1e}\n").collect();
+    let emit = args.num("emit", 1) == 1;
+    let results: std::sync::Mutex<Vec<(usize, String)>> = std::sync::Mutex::new(Vec::new());
+    let mut rep = pool::run_space(
+        programs.len() as u64,
+        crate::threads(args),
+        std::time::Duration::from_secs(args.num("hang-s", 120)),
+        |i, rep| {
+            let text = programs[i as usize];
+            let r = guarded(|| {
+                let params = SemaCreationParams::new().set_program_content(text.to_string());
+                let mut sa = Sema::new(params);
+                let ok = dora_frontend::check_program(&mut sa);
+                let n = sa.diag.borrow().errors().len();
+                let msg = if n > 0 {
+                    let rendered = sa.diag.borrow_mut().dump_to_string(&sa, false);
+                    rendered.lines().next().unwrap_or("").to_string()
+                } else {
+                    String::new()
+                };
+                let has_errors = sa.diag.borrow().has_errors();
+                if ok && !has_errors && emit {
+                    // emission runs the bytecode verifier on every function (panics on a malformed one)
+                    let prog = dora_frontend::emit_program(sa);
+                    std::hint::black_box(prog.functions.len());
+                }
+                (ok, has_errors, n, msg)
+            });
+            let line = match r {
+                Ok((ok, has_errors, n, msg)) => {
+                    if ok == has_errors {
+                        rep.add("sema:status-mismatch".into(), text, "check_program result disagrees with has_errors");
+                    }
+                    format!("{}\t{}\t{}\t{}", i, if ok { "ok" } else { "rejected" }, n, msg.replace('\t', " "))
+                }
+                Err(p) => {
+                    rep.add(p.key(), text, &format!("{} at {}", p.message, p.location));
+                    format!("{}\tpanic\t0\t{}", i, p.message.replace('\n', " ").replace('\t', " "))
+                }
+            };
+            results.lock().unwrap().push((i as usize, line));
+        },
+        |i| programs[i as usize].chars().take(400).collect(),
+    );
+    let mut v = results.into_inner().unwrap();
+    v.sort();
+    let text: String = v.into_iter().map(|(_, l)| l + "\n").collect();
+    std::fs::write(out_path, text).expect("write verdicts");
+    rep.samples.push(programs[0].chars().take(300).collect());
+    rep
+}
